@@ -40,6 +40,10 @@ type StepRes struct {
 	BatchDiff string   `json:"batch_diff,omitempty"`
 	Batch     []string `json:"batch,omitempty"`
 	Read      string   `json:"read,omitempty"` // found <hex path> | found ~ | nomodule
+	// every op: first difference between the answers of the one value and of the SHADOW value - a
+	// second Modules value that runs the same history without the loads the one value refused -
+	// to the lookups a caller can make at any time ("" when equal)
+	ShadowDiff string `json:"shadow_diff,omitempty"`
 }
 
 type GoRes struct {
@@ -288,6 +292,9 @@ func runGo(h History) GoRes {
 		}
 	}
 	ms := newModules(h)
+	// the shadow: the same history, but a text the one value refuses is never offered to it
+	shadow := newModules(h)
+	lookupsOnly := []error{fmt.Errorf("lookups only")}
 	var goodN, goodT []string
 	for i, op := range h.Ops {
 		var sr StepRes
@@ -299,6 +306,9 @@ func runGo(h History) GoRes {
 				sr.Load = "accepted"
 				goodN = append(goodN, op.Name)
 				goodT = append(goodT, op.Text)
+				if serr := shadow.Parse(op.Text, op.Name); serr != nil {
+					add(fmt.Sprintf("op %d: %s is accepted after refused loads but refused without them: %s", i, op.Name, firstLine(serr.Error())))
+				}
 			} else {
 				sr.Load = classifyReject(op.Name, op.Text, err)
 				sr.Err = firstLine(err.Error())
@@ -318,6 +328,7 @@ func runGo(h History) GoRes {
 			}
 			ferrs := fresh.Process()
 			_, fext := extendedDump(fresh, ferrs)
+			shadow.Process()
 			// the queries a caller can make now, on both values (GetModule, which processes once
 			// more, at every third operation only)
 			ext = append(ext, queries(ms, errs, i%3 == 0)...)
@@ -341,6 +352,9 @@ func runGo(h History) GoRes {
 			} else {
 				sr.Read = "found ~"
 			}
+			if sm := shadow.Modules[op.Key]; sm != nil {
+				yang.ToEntry(sm).Find(op.Path)
+			}
 		case "walk":
 			// what a tool does between loads: convert everything, look at every node, collect errors
 			for _, m := range allModules(ms) {
@@ -352,7 +366,20 @@ func runGo(h History) GoRes {
 			// ... and ask for namespaces and modules by name (answers are not compared here: the
 			// set may be unprocessed; the same questions are compared after every Process)
 			queries(ms, []error{nil}, false)
+			for _, m := range allModules(shadow) {
+				e := yang.ToEntry(m)
+				var sink []string
+				lib.DumpTree(m.FullName(), e, &sink)
+				e.GetErrors()
+			}
 			sr.Read = "walked"
+		}
+		// after EVERY operation: what a caller can look up at any time (namespaces, modules and
+		// submodules by name and revision) must be answered as by the value that never saw the
+		// refused texts
+		if d := rescorr.Diff(queries(ms, lookupsOnly, false), queries(shadow, lookupsOnly, false)); d != "" {
+			d = strings.Replace(d, "| model:", "| the same history without the refused loads:", 1)
+			sr.ShadowDiff = strings.Replace(d, "go:", "history:", 1)
 		}
 		res.Steps = append(res.Steps, sr)
 	}
@@ -480,6 +507,10 @@ func compare(o Outcome) (violations, disagreements []diff) {
 		if s.BatchDiff != "" {
 			violations = append(violations, diff{kind: "spec", goV: map[string]any{"history": s.Dump, "batch_on_fresh_set": s.Batch},
 				what: fmt.Sprintf("op %d (process): the one Modules value and a batch run of the accepted texts on a fresh set differ: %s", i, s.BatchDiff)})
+		}
+		if s.ShadowDiff != "" {
+			violations = append(violations, diff{kind: "spec", goV: s.ShadowDiff,
+				what: fmt.Sprintf("after op %d (%s %s): a lookup is answered differently than by a Modules value that ran the same history without the refused loads: %s", i, o.H.Ops[i].Op, o.H.Ops[i].Name, s.ShadowDiff)})
 		}
 		if op := o.H.Ops[i]; op.Op == "load" && op.Fault != "" && s.Load == "accepted" {
 			disagreements = append(disagreements, diff{kind: "obligation", goV: s.Load,
@@ -848,7 +879,7 @@ func main() {
 	if maxLen >= 12 {
 		maxMods = 3
 	}
-	res.Rule = fmt.Sprintf("histories of load(good text) | load(bad text) | process | read | walk of length <= %d on one Modules value: %d corpus histories (the D30-D32, D44-D46, D55 witnesses, the histories of the Lean non-vacuity examples, imports / submodules arriving after a first Process, unions over typedefs of a library whose newer revision arrives late, extension-bearing built-in types whose extension module arrives after a Process / read), each in raw-text and in statement-tree mode, then seeded histories over the texts of a generated module set (harness/gen: 1-%d modules with submodules, groupings, typedefs, identities, augments, deviations) in as-generated / submodules-first / reversed / shuffled arrival order, 40%% with another (later or earlier) revision of one module whose body differs, with process, read (Find), walk (ToEntry + GetErrors + a visit of every node of everything) and bad texts interleaved; every tenth history is about namespaces: after a Process, walk or read of a generated set a differently named module arrives that claims a namespace already in use, and / or a newer revision of a module with a changed namespace (a fresh one or another module's), and / or a module that takes over the namespace such a revision gave up; every fifth history is built around a submodule revision that is superseded after a Process: module m includes s, the first revision of s has an include (submodule t) and / or an import (module lib) of its own and uses what they bring (grouping, typedef, identity base, identityref), a newer (one time in five: older) revision of s without those statements arrives after a Process, sometimes a third one after another, so that nothing reaches the old revision - and sometimes t - any more; in the general histories one revision variant in three is of a submodule; every fifth history is built around types that name a built-in and still depend on the module set: a generated module gets unions (nested, inside typedefs at module and container level, in leaf-lists) whose members are typedefs of an imported type library beside decimal64 / enumeration / bits / leafref members with restrictions of their own, and built-in types (string, int8, enumeration, decimal64, bits, leafref, boolean, union and its members) that carry an extension statement of an imported module; the library arrives early in one revision and after a Process in another that redefines the typedefs (other base kind, range, enum / bit set, fraction digits, union members), the extension module arrives only after a first Process, walk or read; bad texts = the good text of a pending or loaded module with a nested scope holding an unresolvable typedef (60%%) and ONE late fault (unknown substatement deep inside the last statement, missing type at the end, syntax error at the end, a non-module node after the module, a second module in the text that is a duplicate, the text twice) or an exact duplicate (same or other file name); distinct_nontrivial = distinct histories (by operations and texts) with a process that follows an accepted load and an earlier process or rejected load, i.e. where incrementality or failed-load transparency is actually exercised", maxLen, nCorpus, maxMods)
+	res.Rule = fmt.Sprintf("histories of load(good text) | load(bad text) | process | read | walk of length <= %d on one Modules value: %d corpus histories (the D30-D32, D44-D46, D55 witnesses, the histories of the Lean non-vacuity examples, imports / submodules arriving after a first Process, unions over typedefs of a library whose newer revision arrives late, extension-bearing built-in types whose extension module arrives after a Process / read), each in raw-text and in statement-tree mode, then seeded histories over the texts of a generated module set (harness/gen: 1-%d modules with submodules, groupings, typedefs, identities, augments, deviations) in as-generated / submodules-first / reversed / shuffled arrival order, 40%% with another (later or earlier) revision of one module whose body differs, one load in seven offers two pending texts as one (several top-level statements, registered all or nothing), with process, read (Find), walk (ToEntry + GetErrors + a visit of every node of everything) and bad texts interleaved; every tenth history is about namespaces: after a Process, walk or read of a generated set a differently named module arrives that claims a namespace already in use, and / or a newer revision of a module with a changed namespace (a fresh one or another module's), and / or a module that takes over the namespace such a revision gave up; every fifth history is built around a submodule revision that is superseded after a Process: module m includes s, the first revision of s has an include (submodule t) and / or an import (module lib) of its own and uses what they bring (grouping, typedef, identity base, identityref), a newer (one time in five: older) revision of s without those statements arrives after a Process, sometimes a third one after another, so that nothing reaches the old revision - and sometimes t - any more; in the general histories one revision variant in three is of a submodule; every fifth history is built around types that name a built-in and still depend on the module set: a generated module gets unions (nested, inside typedefs at module and container level, in leaf-lists) whose members are typedefs of an imported type library beside decimal64 / enumeration / bits / leafref members with restrictions of their own, and built-in types (string, int8, enumeration, decimal64, bits, leafref, boolean, union and its members) that carry an extension statement of an imported module; the library arrives early in one revision and after a Process in another that redefines the typedefs (other base kind, range, enum / bit set, fraction digits, union members), the extension module arrives only after a first Process, walk or read; bad texts = the good text of a pending or loaded module with a nested scope holding an unresolvable typedef (60%%) and ONE late fault (unknown substatement deep inside the last statement, missing type at the end, syntax error at the end, a non-module node after the module, a second module in the text that is a duplicate, the text twice; a text of 2-3 top-level statements that starts with a NEWER REVISION of a loaded module - sometimes with a moved namespace, sometimes behind a brand-new module - and ends with a statement add refuses: a duplicate, a non-module node, a module name with an @) or an exact duplicate (same or other file name); distinct_nontrivial = distinct histories (by operations and texts) with a process that follows an accepted load and an earlier process or rejected load, i.e. where incrementality or failed-load transparency is actually exercised", maxLen, nCorpus, maxMods)
 	res.Distribution["histories_corpus"] = int64(2 * nCorpus)
 	res.Distribution["histories_with_loads_as_raw_text"] = modes["text"]
 	res.Distribution["histories_with_loads_as_statement_trees"] = modes["stmts"]
@@ -868,6 +899,7 @@ func main() {
 	res.Distribution["histories_outside_model"] = outside
 	res.Distribution["crashes"] = crashes
 	res.Notes = append(res.Notes,
+		"after EVERY operation (also right after an accepted or refused load, before the next Process) the lookups that need no processed trees - FindModuleByNamespace for every namespace in play and an unknown one, FindModule for every module / submodule name and name@revision and an unknown name - are put to the one value and to a SHADOW value that runs the same history (same Process, read and walk operations) without the loads the one value refused, and compared with the source position of what is returned (Go vs Go): a refused text leaves no trace for every later load, processing run and query",
 		"after every Process the same queries are put to the one value and to the batch value and compared (Go vs Go; the session model has no such operations): FindModuleByNamespace for every namespace in play and an unknown one, FindModule for every module / submodule name and name@revision and an unknown name, Entry.Find from every module root to up to 12 nodes of its tree and across every import, GetModule of the first module (every third operation; it processes once more); Entry.Namespace and Entry.InstantiatingModule of every node are part of the dump (ns=, im=); the walk operation asks the namespace and name questions between loads as a perturbation",
 		"every process op is checked twice: Go (one value) vs Go (batch of the accepted texts on a fresh value) on an extended dump (all node fields, submodule trees, identity value lists with source positions), and Go vs the Lean session model on the projection "+strings.Join(keys, ",")+" + errors",
 		"3 of 4 generated histories (and every corpus history) send the raw texts: generic parser, AST builder and registry of the model decide whether a text is accepted, and the answer to every load is compared with goyang's (syntax / build / add); 1 of 4 (and every corpus history a second time) send the statement trees of the real generic parser with goyang's verdict on parser and builder as a flag, duplicates and non-module nodes are then still decided by the model and compared",
